@@ -175,8 +175,10 @@ SubstToks(P, ctoks, m, ltoks, i) ==
                    IN [ok |-> TRUE, toks |-> <<first>> \o Tail(span) \o rest.toks]
 
 \* static sizes: >= 0 a size, -1 not syntactically evident, -2 macros nested beyond
-\* MaxMacroNest (a macro that reaches itself: the depth limit makes that an error)
-MaxMacroNest == 8
+\* MaxMacroNest.  Every macro level costs two evaluation levels (its production,
+\* its block's lines), so the production of the 13th nested macro sits at
+\* MaxEvalDepth and is an error - as is, therefore, any macro that reaches itself.
+MaxMacroNest == 11
 RECURSIVE MatchStaticSizeD(_, _, _, _)
 RECURSIVE ParamSizes(_, _, _, _, _, _)
 RECURSIVE AsmStaticSize(_, _, _, _, _, _)
